@@ -146,6 +146,7 @@ func (tr *Tr) staticCall(fr *frame, callee *ssa.Function, args []Val, bindings [
 		return Val{Ty: rt}
 	}
 	if c := tr.G.contracts.Funcs[name]; c != nil && !c.Inline && tr.pure == 0 {
+		tr.closureBindings = bindings
 		return tr.applyContract(fr, callee, c, args, rt, pos, cc)
 	}
 	if tr.canInline(fr, callee) {
@@ -233,7 +234,7 @@ func (tr *Tr) staticCall(fr *frame, callee *ssa.Function, args []Val, bindings [
 func (tr *Tr) havocCall(fr *frame, args []Val, rt types.Type, havocHeap bool) Val {
 	if havocHeap {
 		oldA := tr.curA(fr)
-		fr.heap = &Heap{base: newEpoch(), m: map[string]string{}}
+		fr.heap = fr.heap.havocAll()
 		newA := tr.declareConst("Int", "A_call")
 		tr.assume("true", app(">=", newA, oldA))
 		fr.heap.m["ALLOC"] = newA
@@ -298,6 +299,13 @@ func (tr *Tr) applyContract(fr *frame, callee *ssa.Function, c *Contract, args [
 			names[n] = args[i]
 		}
 	}
+	// a closure's free variables (captured by reference: each is a pointer to the variable)
+	for i, fv := range callee.FreeVars {
+		if i < len(tr.closureBindings) {
+			names[fv.Name()] = tr.closureBindings[i]
+		}
+	}
+	tr.closureBindings = nil
 	pkg := tr.G.typesPkg[c.PkgPath]
 	if pkg == nil && callee.Pkg != nil {
 		pkg = callee.Pkg.Pkg
@@ -321,12 +329,18 @@ func (tr *Tr) applyContract(fr *frame, callee *ssa.Function, c *Contract, args [
 		if err != nil {
 			vfail("%s: contract of %s: requires %s: %v", fr.fn, c.Key, clauseLabel(r, k), err)
 		}
+		if tr.inCallback > 0 && r.Label == "arg" {
+			// environment guarantee of a callback: the higher-order callee passes well-formed arguments
+			tr.assume(fr.curReach, t)
+			tr.vc.CallSite = append(tr.vc.CallSite, "assumed: callback arguments of "+c.Key+" satisfy its [arg] precondition: "+r.Text)
+			continue
+		}
 		tr.oblige(fr, "pre:"+sc, clauseLabel(r, k), "", fr.curReach, t, pos, "precondition of "+c.Key+": "+r.Text)
 	}
 	// havoc what the callee may assign
 	if !c.HasAssigns {
 		oldA := tr.curA(fr)
-		fr.heap = &Heap{base: newEpoch(), m: map[string]string{}}
+		fr.heap = fr.heap.havocAll()
 		newA := tr.declareConst("Int", "A_call")
 		tr.assume("true", app(">=", newA, oldA))
 		fr.heap.m["ALLOC"] = newA
@@ -334,7 +348,7 @@ func (tr *Tr) applyContract(fr *frame, callee *ssa.Function, c *Contract, args [
 		tg := tr.assignTargets(fr, c, env)
 		if t := tg["*"]; t != nil && t.all {
 			oldA := tr.curA(fr)
-			fr.heap = &Heap{base: newEpoch(), m: map[string]string{}}
+			fr.heap = fr.heap.havocAll()
 			newA := tr.declareConst("Int", "A_call")
 			tr.assume("true", app(">=", newA, oldA))
 			fr.heap.m["ALLOC"] = newA
@@ -551,7 +565,7 @@ func (tr *Tr) applyIfaceContract(fr *frame, c *Contract, cc *ssa.CallCommon, arg
 	}
 	if !c.HasAssigns {
 		oldA := tr.curA(fr)
-		fr.heap = &Heap{base: newEpoch(), m: map[string]string{}}
+		fr.heap = fr.heap.havocAll()
 		newA := tr.declareConst("Int", "A_call")
 		tr.assume("true", app(">=", newA, oldA))
 		fr.heap.m["ALLOC"] = newA
@@ -1034,7 +1048,9 @@ func (tr *Tr) callback(fr *frame, callee *ssa.Function, c *Contract, hn string, 
 		}
 		cargs = append(cargs, v)
 	}
+	tr.inCallback++
 	r := tr.staticCall(fr, ci.fn, cargs, ci.bindings, rt, pos, nil)
+	tr.inCallback--
 	after := fr.heap
 	hs := map[*ssa.BasicBlock]*Heap{}
 	b1, b2 := &ssa.BasicBlock{Index: -1}, &ssa.BasicBlock{Index: -2}
